@@ -162,3 +162,55 @@ def literal_chars(f, fname):
             for c in str(l["v"]):
                 out.add(c)
     return out
+
+
+OTHER_REPS = ["a", "Z", "0", " ", "%", "\u00e9", "\u8868", "\U0001f600"]
+
+
+def escape_chain(f, fname):
+    """The per-character escape code of `fname` as an ordered substitution list: either the function is a
+    `str::replace` chain, or a single pass `for c in s.chars() { match c { 'x' => out.push_str(".."), .. c => out.push(c) } }`
+    without state, which is tabulated over every character literal of the function plus representatives of all others."""
+    try:
+        return replace_chain(f, fname)
+    except Anchor as first:
+        try:
+            cl = char_loop(f, fname)
+        except Anchor:
+            raise first
+        if cl["flags"]:
+            raise Anchor("%s keeps state between characters: not a per-character code" % fname)
+        alphabet = sorted(literal_chars(f, fname) | set(OTHER_REPS))
+        names, init, table = transducer(f, fname, alphabet)
+        pairs = []
+        for ch in alphabet:
+            st, em = table[((), ch)]
+            if em != ch:
+                if ch in OTHER_REPS and ch not in literal_chars(f, fname):
+                    raise Anchor("%s rewrites the ordinary character %r" % (fname, ch))
+                pairs.append((ch, em))
+        # order so that applying the pairs one after the other equals the simultaneous substitution
+        ordered = []
+        rest = list(pairs)
+        while rest:
+            pick = None
+            for cand in rest:
+                # cand may go next if its `from` does not occur in the output of anything already placed
+                if not any(cand[0] in to for _, to in ordered):
+                    # and nothing still to come would be re-escaped wrongly later: handled by the final check
+                    pick = cand
+                    if any(cand[0] in to for _, to in rest if (_, to) != cand):
+                        break       # a character that occurs in other outputs (the escape character) goes first
+            if pick is None:
+                raise Anchor("%s: the per-character code cannot be written as an ordered substitution list" % fname)
+            ordered.append(pick)
+            rest.remove(pick)
+        ok, why = chain_is_homomorphism(ordered)
+        if not ok:
+            # try: escape character(s) first, the others in any order
+            esc_first = sorted(pairs, key=lambda p_: 0 if any(p_[0] in to for a_, to in pairs if a_ != p_[0]) else 1)
+            ok, why = chain_is_homomorphism(esc_first)
+            if not ok:
+                raise Anchor("%s: %s" % (fname, why))
+            ordered = esc_first
+        return ordered
